@@ -141,11 +141,55 @@ def regex_flag_position_obligations(ctx, rep, rule):
         rep.ok(rule, f"regular-expression flags are passed as flags [{n} substitution / split calls]", "pygopherd", "", key=f"{rule}|none")
 
 
+
+def regex_replacement_obligations(ctx, rep, rule):
+    """The replacement argument of re.sub is a template: backslash escapes in it are expanded (`\\074` becomes `<`).  Data - even data
+    that has been escaped for HTML - may only be put in through a function replacement (or str.replace)."""
+    prog = ctx.prog
+    n, found = 0, []
+    for f in prog.all_functions():
+        if not f.module.name.startswith("pygopherd") or ".tests" in f.module.name:
+            continue
+        for c in ast.walk(f.node):
+            if not isinstance(c, ast.Call):
+                continue
+            d = dotted(c.func) or ""
+            if d in ("re.sub", "re.subn") and len(c.args) >= 2:
+                repl = c.args[1]
+            elif isinstance(c.func, ast.Attribute) and c.func.attr in ("sub", "subn") and not d.startswith("re.") and len(c.args) >= 1 \
+                    and not isinstance(c.func.value, ast.Constant):
+                repl = c.args[0]
+            else:
+                continue
+            n += 1
+            if isinstance(repl, (ast.Constant, ast.Lambda)):
+                continue
+            if isinstance(repl, ast.Name) and (repl.id in f.module.functions or any(isinstance(x, ast.FunctionDef) and x.name == repl.id for x in ast.walk(f.node))):
+                continue
+            if isinstance(repl, ast.Attribute) and dotted(repl.value) in ("self", "cls"):
+                g = prog.resolve_method(f.cls, repl.attr) if f.cls is not None else None
+                if g is not None:
+                    continue
+            if isinstance(repl, ast.Call) and isinstance(repl.func, ast.Attribute) and repl.func.attr == "replace" and repl.args \
+                    and isinstance(repl.args[0], ast.Constant) and repl.args[0].value == "\\":
+                continue  # backslashes doubled
+            found.append((f, c, norm(repl)))
+    for f, c, r in found:
+        rep.add(rule, f"{f.qualname}: {norm(c)[:60]}", False, ctx.where(f, c),
+                f"`{r[:40]}` is data used as the replacement *template* of a substitution: a backslash sequence in it (`\\074`, `\\g<0>`) is expanded after any "
+                "escaping was done - a name can smuggle `<` into the page, or make the substitution fail", key=f"{rule}|{f.qualname}|{norm(c)[:40]}")
+    if not found:
+        rep.ok(rule, f"substitutions take constant or function replacements [{n} calls]", "pygopherd", "", key=f"{rule}|none")
+
+
 def check(ctx, rep):
     prog = ctx.prog
     rep.rule("R13a", "operands interpolated into HTML/WML built by the server: escaped in text, quote-escaped or percent-encoded in attributes", floor=20)
     rep.rule("R13b", "HTTP header lines interpolate only server-chosen values", floor=2)
     rep.rule("R13c", "redirect page: URL escaped with quotes; filter rejects \" CR LF TAB NUL", floor=5)
+    rep.rule("R13g", "the replacement of a regular-expression substitution is a constant or a function, never data (its backslash sequences would be "
+             "expanded after escaping)", floor=1)
+    regex_replacement_obligations(ctx, rep, "R13g")
     rep.rule("R13f", "substitutions that clean text for markup run to the end: no regular-expression flag sits in the count / maxsplit position "
              "of re.sub / re.split", floor=1)
     regex_flag_position_obligations(ctx, rep, "R13f")
